@@ -4,34 +4,54 @@ From Coq Require Import List NArith ZArith Bool.
 Import ListNotations.
 Require Import Base.Wire Base.PyStr C08.Model C08.Frame C08.PassA C08.PassC C09.Model C09.Lemmas.
 
-(* Full statement: with sasl.required, registration never completes (no CAP END,
-   no CONNECTED) without a successful authentication.  The pinned code violates
-   it (finding F8: the flag is only read once every mechanism has failed).
-   Proved: once the bot is inside the initial SASL exchange it stays there,
-   sending no CAP END, whatever the server sends short of a 903 -- or the
-   connection is dropped ... *)
-Theorem C09_sasl_required_on_domain :
-  forall c a0 ms s,
-    c_required c = true -> IS a0 s -> forallb not903_reset ms = true ->
-    (IS a0 (fst (run_msgs c s ms)) /\ Forall quiet (snd (run_msgs c s ms)))
-    \/ Exists is_reset (snd (run_msgs c s ms)).
-Proof. exact required_blocks. Qed.
-Print Assumptions C09_sasl_required_on_domain.
+(* With sasl.required, registration never completes without a successful
+   authentication: an invariant of EVERY sequence of server messages (servers
+   that omit 'sasl', NAK it, fail every mechanism, skip CAP entirely, send CAP
+   NEW/DEL, ... and driver resets), from every state satisfying it:
+   - InvR: while sasl_authenticated is false the fsm is still registering
+     (not INIT_WAITING_MOTD = CAP END sent, not CONNECTED / CONNECTED_SASL =
+     where the channels are joined);
+   - OutR: every CAP END (its ghost event records sasl_authenticated at that
+     moment) is sent authenticated.
+   (Before the fix of finding C09.F8 this held only inside the SASL exchange
+   and was refuted outside it.) *)
+Theorem C09_sasl_required :
+  forall c ms s, InvR c s ->
+  InvR c (fst (run_msgs c s ms)) /\ Forall (OutR c) (snd (run_msgs c s ms)).
+Proof. exact r_run. Qed.
+Print Assumptions C09_sasl_required.
 
-(* ... the 903 path does authenticate ... *)
-Theorem C09_success_authenticates : forall s, authed (rstate (do903 s)) = true.
+(* every connection starts in a state satisfying the invariant *)
+Theorem C09_reset_establishes_required_invariant : forall c s, InvR c (rstate (reset c s)).
+Proof. exact InvR_reset. Qed.
+Print Assumptions C09_reset_establishes_required_invariant.
+
+(* the same in plain terms, from the start of a connection *)
+Theorem C09_sasl_required_from_start :
+  forall c ms, c_required c = true ->
+  let r := run_msgs c (start c) ms in
+  (authed (fst r) = false ->
+     fsm (fst r) <> CONNECTED /\ fsm (fst r) <> CONNECTED_SASL /\ fsm (fst r) <> WAIT_MOTD) /\
+  (forall n out a, In (GEnd n out a) (snd r) -> a = true).
+Proof. exact required_never_registers. Qed.
+Print Assumptions C09_sasl_required_from_start.
+
+(* ... the only thing that authenticates is a 903 ... *)
+Theorem C09_success_authenticates : forall c s, authed (rstate (do903 c s)) = true.
 Proof. exact do903_authenticates. Qed.
 Print Assumptions C09_success_authenticates.
 
-(* ... and outside the domain (the server never acknowledges 'sasl') the bot
-   ends up CONNECTED, unauthenticated: no sasl in LS / NAK / no CAP at all. *)
-Theorem C09_sasl_required_refuted :
-  exists c, c_required c = true /\
-    (exists ms, fsm (fst (run_msgs c (start c) ms)) = CONNECTED /\ authed (fst (run_msgs c (start c) ms)) = false) .
-Proof.
-  exists cfg_required. split; [reflexivity|]. eexists [INum 376 []]. vm_compute. auto.
-Qed.
-Print Assumptions C09_sasl_required_refuted.
+(* ... and the statement is not vacuous: with sasl.required a successful
+   exchange does register (one CAP END, authenticated, CONNECTED), while the
+   old witness of C09.F8 (no CAP at all: 375/376) now drops the connection *)
+Theorem C09_sasl_required_witnesses :
+  (let ms := [cap [s_LS; s_sasl]; cap [[65;67;75]; s_sasl]; IAuth [s_PLUS] true true; INum 903 []; INum 376 []] in
+   let '(s, outs) := run_msgs cfg_required (start cfg_required) ms in
+   filter is_cap_end outs = [GEnd 1 [] true] /\ fsm s = CONNECTED /\ authed s = true) /\
+  (let '(s, outs) := run_msgs cfg_required (start cfg_required) [INum 375 []; INum 376 []] in
+   existsb is_cap_end outs = false /\ existsb is_drop outs = true /\ fsm s = INIT_CAP /\ authed s = false).
+Proof. exact (conj required_success_registers required_no_cap_aborts). Qed.
+Print Assumptions C09_sasl_required_witnesses.
 
 (* STS over an insecure connection: the next driver action is a reconnect to the
    advertised port with certificate verification forced; nothing is stored. *)
@@ -59,23 +79,24 @@ Theorem C09_sts_invalid_ignored :
 Proof. exact sts_invalid_ignored. Qed.
 Print Assumptions C09_sts_invalid_ignored.
 
-(* Full statement: while an unexpired stored policy exists every connection to
-   that host uses its port with verification.  Violated when no disconnect time
-   was ever recorded (finding F9); proved with one ... *)
-Theorem C09_sts_applied_on_domain :
-  forall now n sv pol last port duration,
+(* While an unexpired stored policy exists every connection to that host uses
+   its port with verification: unexpired = no disconnection was ever recorded,
+   or now <= last disconnection + duration.  (Before the fix of finding C09.F9
+   the policy was ignored when no disconnect time had been recorded.) *)
+Theorem C09_sts_applied :
+  forall now n sv pol port duration,
     dict_get (sv_host sv) (policies n) = Some pol -> parseStsPolicy2 pol true = Some (port, duration) ->
-    dict_get (sv_host sv) (discs n) = Some last -> (now <= last + duration)%Z ->
+    unexpired now n (sv_host sv) duration ->
     applyStsPolicy now n sv = (n, Ok (Server (sv_host sv) port (sv_attempt sv) true)).
-Proof. exact sts_applied_on_domain. Qed.
-Print Assumptions C09_sts_applied_on_domain.
+Proof. exact sts_applied. Qed.
+Print Assumptions C09_sts_applied.
 
-Theorem C09_sts_applied_refuted :
-  exists now n sv pol, dict_get (sv_host sv) (policies n) = Some pol /\
-    parseStsPolicy2 pol true = Some (6697%Z, 1000000%Z) /\
-    applyStsPolicy now n sv = (n, Ok sv) /\ sv_force sv = false /\ sv_port sv = 6667%Z.
-Proof. exact sts_applied_refuted. Qed.
-Print Assumptions C09_sts_applied_refuted.
+(* non-vacuity, on the old witness of C09.F9: stored policy, no disconnect record *)
+Theorem C09_sts_applied_without_disconnect_record :
+  let n := Net [([104], s_port ++ [61;54;54;57;55;44] ++ s_duration ++ [61;49;48;48;48;48;48;48])] [] in
+  applyStsPolicy 100%Z n (Server [104] 6667 0 false) = (n, Ok (Server [104] 6697 0 true)).
+Proof. exact sts_applied_no_disconnect_record. Qed.
+Print Assumptions C09_sts_applied_without_disconnect_record.
 
 (* forced verification means verification *)
 Theorem C09_force_implies_verify :
